@@ -30,20 +30,6 @@ Proof.
 Qed.
 
 (* ---------- restoreDirModes as a lookup ---------- *)
-Fixpoint last_dir_mode (pre p : path) (es : list entry) : option N :=
-  match es with
-  | [] => None
-  | e :: es' =>
-      match last_dir_mode pre p es' with
-      | Some m => Some m
-      | None =>
-          match e_kind e, strip_prefix pre (e_name e) with
-          | EDir, Some rel => if path_eqb rel p then Some (e_mode e) else None
-          | _, _ => None
-          end
-      end
-  end.
-
 Lemma finish_step_other pre preserve f0 acc e p :
   (forall cur, fs_lookup f0 p <> Some (NDir cur)) ->
   fs_lookup (finish_step pre preserve f0 acc e) p = fs_lookup acc p.
